@@ -12,6 +12,18 @@ def _frames(block):
     return fr
 
 
+HARNESS_FN = re.compile(r"^(\(\*?(gm|sim|ss|st[A-Z]|vk|cfg|me[A-Z]|pb[A-Z]|fm|cd)[A-Za-z0-9]*\)|(gm|sim|ss|st|vk|cfg|v|pb|fm|cd|me)[A-Z]|TestVerif)")
+
+
+def is_harness(name, file, pkgmarker):
+    if "zz_verif" in file or "/verif/harness/" in file or "/verif/work/" in file and "instr_" not in file:
+        return True
+    base = name.split("/")[-1]
+    if base.startswith(pkgmarker):
+        base = base[len(pkgmarker):]
+    return bool(HARNESS_FN.match(base))
+
+
 def collect_races(work, pkgmarker):
     reports = {}
     for f in glob.glob(os.path.join(work, "race.*")):
@@ -26,7 +38,7 @@ def collect_races(work, pkgmarker):
             for s in acc[:2]:
                 fn = "?"
                 for (name, file) in _frames(s):
-                    if pkgmarker in name and "zz_verif" not in file and "/verif/harness/" not in file:
+                    if pkgmarker in name and not is_harness(name, file, pkgmarker):
                         fn = name.split("/")[-1]
                         break
                 inner.append(fn)
